@@ -269,7 +269,7 @@ func c03Run(c c03Case, st *vlib.Stats) string {
 				return fmt.Sprintf("%s: the database does not start: %v", what, err)
 			}
 			msg := func() string {
-				defer e2.Crash(false)
+				defer func() { e2.Crash(false) }()
 				if err := e2.Exec("USE " + DBName); err != nil {
 					return "USE failed: " + err.Error()
 				}
@@ -333,6 +333,29 @@ func c03Run(c c03Case, st *vlib.Stats) string {
 					if mm := CompareTable(e2, ot, tr); mm != "" {
 						return fmt.Sprintf("after a follow-up insert into %s (recovered prefix r=%d of %d): %s", name, r, nops, mm)
 					}
+				}
+				// ... and the log they were appended to must carry the next start too: whatever
+				// the interrupted statement left at the end of the log is now in its middle
+				how := "process death"
+				if imagesTotal%2 == 0 {
+					how = "clean shutdown"
+					if err := e2.Shutdown(); err != nil {
+						return "clean shutdown after the follow-up inserts failed: " + err.Error()
+					}
+					e2.Sess.RelationService = nil
+				} else {
+					e2.Crash(false)
+				}
+				e3, err := mk.Start(img.dir)
+				if err != nil {
+					return fmt.Sprintf("after the recovery, the follow-up inserts and a %s the database does not start: %v", how, err)
+				}
+				e2 = e3
+				if err := e2.Exec("USE " + DBName); err != nil {
+					return "USE failed after the second start: " + err.Error()
+				}
+				if mm := CompareAll(e2, state, nil); mm != "" {
+					return fmt.Sprintf("after the recovery (prefix r=%d of %d), the follow-up inserts, a %s and another start: %s", r, nops, how, mm)
 				}
 				return ""
 			}()
